@@ -282,7 +282,8 @@ func c04R1(c *Ctx) {
 
 func c04R2(c *Ctx) {
 	const R = "C04.R2.single-owner"
-	c.Expect(R, 4)
+	c.Expect(R, 5)
+	c04ClaimMapAppendOnly(c, R)
 	TC := c.P.Fn("internal/status", "Tracker.TryCommit")
 	if TC == nil {
 		c.LostAnchor(R, nTryCommit)
@@ -373,6 +374,129 @@ func c04R2(c *Ctx) {
 	}
 }
 
+// c04ClaimMapAppendOnly: the tracker's claim map (its sync.Map field, or a module wrapper type around a sync.Map) only
+// ever grows during a copy call: anywhere in the module only Load / LoadOrStore / Range are applied to it, and the field is
+// never replaced.  Deleting or overwriting an entry lets a second goroutine win TryCommit for a node that was already
+// claimed, i.e. the node is transferred twice.
+func c04ClaimMapAppendOnly(c *Ctx, R string) {
+	TR := c.P.Named("internal/status", "Tracker")
+	if TR == nil {
+		c.LostAnchor(R, "~/internal/status.Tracker")
+		return
+	}
+	isSyncMap := func(t types.Type) bool {
+		n, ok := t.(*types.Named)
+		return ok && n.Obj().Pkg() != nil && n.Obj().Pkg().Path() == "sync" && n.Obj().Name() == "Map"
+	}
+	st, _ := TR.Underlying().(*types.Struct)
+	var claim *types.Var    // the Tracker field holding the claims
+	var inner *types.Var    // for a wrapper type: its sync.Map field
+	var wrapper *types.Named
+	for i := 0; st != nil && i < st.NumFields(); i++ {
+		ft := derefType(st.Field(i).Type())
+		if isSyncMap(ft) {
+			claim = st.Field(i)
+			continue
+		}
+		if n, ok := ft.(*types.Named); ok && n.Obj().Pkg() != nil && strings.HasPrefix(n.Obj().Pkg().Path(), Mod) {
+			if isSyncMap(n.Underlying()) {
+				claim, wrapper = st.Field(i), n
+			} else if ws, isStruct := n.Underlying().(*types.Struct); isStruct {
+				for j := 0; j < ws.NumFields(); j++ {
+					if isSyncMap(derefType(ws.Field(j).Type())) {
+						claim, wrapper, inner = st.Field(i), n, ws.Field(j)
+					}
+				}
+			}
+		}
+	}
+	if claim == nil {
+		c.Undecided(R, "~/internal/status.Tracker|claim-map-append-only", token.NoPos, "the tracker has no sync.Map (or module wrapper of one) field: the claim store is not the confirmed kind")
+		return
+	}
+	allowed := map[string]bool{"Load": true, "LoadOrStore": true, "Range": true}
+	opOf := func(call ssa.CallInstruction) string {
+		n := CalleeName(call)
+		if !strings.HasPrefix(n, "(*sync.Map).") {
+			return ""
+		}
+		return strings.TrimPrefix(n, "(*sync.Map).")
+	}
+	// the disallowed operations a wrapper method applies to its inner map (transitively through the wrapper's methods)
+	badOps := map[*ssa.Function][]string{}
+	if wrapper != nil {
+		for _, f := range c01ModuleFuncs(c.P) {
+			if f.Signature.Recv() == nil || derefType(f.Signature.Recv().Type()) == nil {
+				continue
+			}
+			rn, _ := derefType(f.Signature.Recv().Type()).(*types.Named)
+			if rn == nil || rn.Origin() != wrapper.Origin() {
+				continue
+			}
+			for _, call := range Calls(f, func(string) bool { return true }) {
+				if op := opOf(call); op != "" && !allowed[op] {
+					_ = inner
+					badOps[f] = append(badOps[f], op)
+				}
+			}
+		}
+		for changed := true; changed; {
+			changed = false
+			for f := range badOps {
+				_ = f
+			}
+			for _, f := range c01ModuleFuncs(c.P) {
+				if len(badOps[f]) > 0 || f.Signature.Recv() == nil {
+					continue
+				}
+				for _, call := range Calls(f, func(string) bool { return true }) {
+					if g := StaticCallee(call); g != nil && len(badOps[g]) > 0 && len(call.Common().Args) > 0 && c01ParamOf(call.Common().Args[0]) != nil {
+						badOps[f] = append(badOps[f], badOps[g]...)
+						changed = true
+						break
+					}
+				}
+			}
+		}
+	}
+	onClaim := func(v ssa.Value) bool { // v is the address (or value) of the Tracker's claim field
+		for _, r := range Roots(v) {
+			if p, ok := c01AddrPath(r); ok && p.last() == claim {
+				return true
+			}
+			if p, ok := c01ValuePath(r); ok && p.last() == claim {
+				return true
+			}
+		}
+		return false
+	}
+	bad, pos := "", token.NoPos
+	for _, f := range c01ModuleFuncs(c.P) {
+		AllInstrs(f, func(in ssa.Instruction) {
+			switch x := in.(type) {
+			case *ssa.Store:
+				if p, ok := c01AddrPath(x.Addr); ok && p.last() == claim && bad == "" {
+					bad, pos = FnName(f)+" replaces the claim map", x.Pos()
+				}
+			case ssa.CallInstruction:
+				args := x.Common().Args
+				if len(args) == 0 || !onClaim(args[0]) {
+					return
+				}
+				if op := opOf(x); op != "" && !allowed[op] && bad == "" {
+					bad, pos = FnName(f)+" applies sync.Map."+op+" to the claim map", x.Pos()
+				}
+				if g := StaticCallee(x); g != nil && len(badOps[g]) > 0 && bad == "" {
+					bad, pos = FnName(f)+" calls "+FnName(g)+" (sync.Map."+badOps[g][0]+") on the claim map", x.Pos()
+				}
+			}
+		})
+	}
+	c.Check(R, "~/internal/status.Tracker|claim-map-append-only", pos, bad == "",
+		ifelse(bad == "", "only Load / LoadOrStore / Range are ever applied to the tracker's claim map, and it is never replaced",
+			bad+": a claimed node can be claimed again during the same copy call, so it is transferred (PreCopy, Fetch, Push) twice"))
+}
+
 // c04IsEffect: calls that touch storage, user callbacks, dispatch, or other
 // repository code (as opposed to context/fmt/errors plumbing).
 func c04IsEffect(call ssa.CallInstruction) bool {
@@ -394,7 +518,7 @@ func c04IsEffect(call ssa.CallInstruction) bool {
 
 func c04R3(c *Ctx) {
 	const R = "C04.R3.limiter-per-call"
-	c.Expect(R, 3)
+	c.Expect(R, 2) // one creation point (both copy entry points may share a constructor) + the traversal's dispatch
 	conc := c01FieldOf(c.P, "", "CopyGraphOptions", "Concurrency")
 	if conc == nil {
 		c.LostAnchor(R, "~.CopyGraphOptions.Concurrency")
@@ -543,6 +667,11 @@ func c04R3(c *Ctx) {
 		}
 		if why == "" && !okPos {
 			why = "a non-positive Concurrency reaches semaphore.NewWeighted without being replaced by the default (a zero-weight semaphore blocks every copy)"
+			for _, st := range c04FieldStores(F, conc) {
+				if mx, isCall := strip(st.Val).(*ssa.Call); isCall && CalleeName(mx) == "builtin:max" {
+					why = "the size is max(Concurrency, k): a positive Concurrency below k is raised to k, so more than Concurrency copy tasks run at once (max is not a default for non-positive values)"
+				}
+			}
 		}
 		// with a limiter parameter: only when none was handed in
 		for _, p := range F.Params {
@@ -584,14 +713,12 @@ func c04R3(c *Ctx) {
 		// the limiters the graph copy dispatches the traversal with
 		var initial []ssa.Value
 		for g := range graphFns {
-			for _, gc := range CallsTo(g, nGo) {
-				if fn, _ := c01FuncOfValue(gc.Common().Args[2]); fn == tr.Entry {
-					initial = append(initial, gc.Common().Args[1])
-				}
+			for _, d := range c01DispatchCalls(g, tr.Entry) {
+				initial = append(initial, d.Limiter)
 			}
 		}
-		for _, g := range CallsTo(T, nGo) {
-			arg := g.Common().Args[1]
+		for _, d := range c01DispatchCalls(T, tr.Entry) {
+			arg := d.Limiter
 			srcs, carried := c01CarriedSources(c.P, arg)
 			if !carried {
 				ok, why = false, "the traversal dispatches successors with a limiter that is not state carried from the enclosing copy call"
@@ -644,14 +771,77 @@ func c04R3(c *Ctx) {
 // result of a module function (positiveOr(v, def)) each of whose results is a
 // positive constant, a parameter returned under a positive test of it, or a
 // parameter whose argument at this call is itself certainly positive.
-func c04CertainPositive(v ssa.Value, depth int) bool {
+func c04CertainPositive(v ssa.Value, depth int) bool { return c04Positive(v, nil, depth, true) }
+
+// c04Positive: v >= 1 (strict) or v >= 0 (!strict) whatever the inputs.  bind maps the parameters of the helper being
+// summarised to the arguments at the call under consideration.
+func c04Positive(v ssa.Value, bind map[*ssa.Parameter]ssa.Value, depth int, strict bool) bool {
 	v = strip(v)
+	if depth > 4 {
+		return false
+	}
 	if k, ok := constInt(v); ok {
-		return k >= 1
+		return k >= 1 || (!strict && k >= 0)
+	}
+	if prm, isParam := v.(*ssa.Parameter); isParam {
+		if a, ok := bind[prm]; ok {
+			return c04Positive(a, nil, depth+1, strict)
+		}
+		return false
 	}
 	call, ok := v.(*ssa.Call)
-	if !ok || depth > 2 {
+	if !ok {
 		return false
+	}
+	switch CalleeName(call) {
+	case "builtin:max":
+		// max(x, c): at least the largest constant operand.  As the final size this is only a clamp at zero inside
+		// cmp.Or (non-strict use); max(x, k>=1) would also raise a positive x below k, which is not a default.
+		if strict {
+			return false
+		}
+		for _, a := range call.Call.Args {
+			if c04Positive(a, bind, depth+1, strict) {
+				return true
+			}
+		}
+		return false
+	case "cmp.Or":
+		// first non-zero operand: positive when every operand is >= 0 and the last one is >= 1
+		if len(call.Call.Args) != 1 {
+			return false
+		}
+		sl, isSl := call.Call.Args[0].(*ssa.Slice)
+		if !isSl {
+			return false
+		}
+		arr, isArr := sl.X.(*ssa.Alloc)
+		if !isArr {
+			return false
+		}
+		elems := map[int64]ssa.Value{}
+		for _, r := range *arr.Referrers() {
+			if ia, isIA := r.(*ssa.IndexAddr); isIA {
+				if k, isK := constInt(ia.Index); isK {
+					for _, r2 := range *ia.Referrers() {
+						if st, isSt := r2.(*ssa.Store); isSt && st.Addr == ssa.Value(ia) {
+							elems[k] = st.Val
+						}
+					}
+				}
+			}
+		}
+		n := int64(len(elems))
+		if n == 0 {
+			return false
+		}
+		for k := int64(0); k < n; k++ {
+			e, okE := elems[k]
+			if !okE || !c04Positive(e, bind, depth+1, false) {
+				return false
+			}
+		}
+		return !strict || c04Positive(elems[n-1], bind, depth+1, true)
 	}
 	h := StaticCallee(call)
 	if h == nil || !inModule(h) || len(h.Blocks) == 0 || h.Signature.Results().Len() != 1 {
@@ -661,50 +851,45 @@ func c04CertainPositive(v ssa.Value, depth int) bool {
 	if len(atoms) == 0 {
 		return false
 	}
+	hb := map[*ssa.Parameter]ssa.Value{}
+	for i, q := range h.Params {
+		if i < len(call.Call.Args) {
+			a := call.Call.Args[i]
+			if pa, isP := strip(a).(*ssa.Parameter); isP && bind != nil {
+				if b, okB := bind[pa]; okB {
+					a = b
+				}
+			}
+			hb[q] = a
+		}
+	}
 	for _, a := range atoms {
 		av := strip(a.Val)
-		if k, isK := constInt(av); isK {
-			if k < 1 {
-				return false
+		if prm, isParam := av.(*ssa.Parameter); isParam && strict {
+			// returned under a positive test of the parameter?
+			pos := newCut()
+			for _, i := range Ifs(h) {
+				cond, t, f := ifEdges(i)
+				bo, isBo := cond.(*ssa.BinOp)
+				if !isBo || strip(bo.X) != ssa.Value(prm) {
+					continue
+				}
+				k, isK := constInt(bo.Y)
+				if !isK {
+					continue
+				}
+				switch {
+				case bo.Op == token.LEQ && k == 0, bo.Op == token.LSS && k == 1:
+					pos.Edges(f)
+				case bo.Op == token.GTR && k == 0, bo.Op == token.GEQ && k == 1:
+					pos.Edges(t)
+				}
 			}
-			continue
-		}
-		prm, isParam := av.(*ssa.Parameter)
-		if !isParam {
-			return false
-		}
-		idx := -1
-		for i, q := range h.Params {
-			if q == prm {
-				idx = i
-			}
-		}
-		if idx < 0 || idx >= len(call.Call.Args) {
-			return false
-		}
-		// returned under a positive test of the parameter?
-		pos := newCut()
-		for _, i := range Ifs(h) {
-			cond, t, f := ifEdges(i)
-			bo, isBo := cond.(*ssa.BinOp)
-			if !isBo || strip(bo.X) != ssa.Value(prm) {
+			if len(pos.edges) > 0 && AtomMustPass(a, pos) {
 				continue
 			}
-			k, isK := constInt(bo.Y)
-			if !isK {
-				continue
-			}
-			switch {
-			case bo.Op == token.LEQ && k == 0, bo.Op == token.LSS && k == 1:
-				pos.Edges(f)
-			case bo.Op == token.GTR && k == 0, bo.Op == token.GEQ && k == 1:
-				pos.Edges(t)
-			}
 		}
-		if len(pos.edges) > 0 && AtomMustPass(a, pos) {
-			continue
-		}
-		if !c04CertainPositive(call.Call.Args[idx], depth+1) {
+		if !c04Positive(av, hb, depth+1, strict) {
 			return false
 		}
 	}
@@ -723,6 +908,53 @@ const (
 	nPush    = "(~/content.Pusher).Push"
 	nMount   = "(~/registry.Mounter).Mount"
 )
+
+// c04Closures: the function values created in f (and its closures): closure literals and bound method values.
+func c04Closures(f *ssa.Function) []*ssa.Function {
+	seen := map[*ssa.Function]bool{}
+	var out []*ssa.Function
+	var scan func(g *ssa.Function)
+	scan = func(g *ssa.Function) {
+		AllInstrs(g, func(in ssa.Instruction) {
+			if mc, ok := in.(*ssa.MakeClosure); ok {
+				if fn := mc.Fn.(*ssa.Function); !seen[fn] {
+					seen[fn] = true
+					out = append(out, fn)
+					if fn.Synthetic == "" {
+						scan(fn)
+					}
+				}
+			}
+		})
+	}
+	scan(f)
+	for _, a := range Anons(f) {
+		if !seen[a] {
+			seen[a] = true
+			out = append(out, a)
+		}
+	}
+	return out
+}
+
+// c04IIFESites: calls in f of a function literal defined in f (immediately invoked, or via a local) whose body
+// contains exactly one call of `name`.
+func c04IIFESites(f *ssa.Function, name string) []ssa.CallInstruction {
+	var out []ssa.CallInstruction
+	for _, call := range Calls(f, func(string) bool { return true }) {
+		if _, isDefer := call.(*ssa.Defer); isDefer {
+			continue
+		}
+		g := StaticCallee(call)
+		if g == nil || g.Parent() != f {
+			continue
+		}
+		if len(CallsTo(g, name)) == 1 {
+			out = append(out, call)
+		}
+	}
+	return out
+}
 
 func c04Instrs(cs []ssa.CallInstruction) []ssa.Instruction {
 	var out []ssa.Instruction
@@ -829,19 +1061,21 @@ func c04R4(c *Ctx) {
 	}
 	// roles
 	var doCopy, copyNode, mountFn *ssa.Function
+	var xferViaHelper []ssa.CallInstruction
+	_ = xferViaHelper
 	for _, f := range c.P.FuncsOfPkg("") {
 		hasIn := func(name string) bool {
 			if len(CallsTo(f, name)) > 0 {
 				return true
 			}
-			for _, a := range Anons(f) {
+			for _, a := range c04Closures(f) {
 				if len(CallsTo(a, name)) > 0 {
 					return true
 				}
 			}
 			return false
 		}
-		// fetches and pushes itself, or in closures it hands to a transfer helper
+		// fetches and pushes itself, or in closures / bound method values it hands to a transfer helper
 		if f.Parent() == nil && hasIn(nFetch) && hasIn(nPush) {
 			if doCopy != nil {
 				c.Undecided(R, "roles|transfer", f.Pos(), "more than one function fetches and pushes directly: "+FnName(doCopy)+", "+FnName(f))
@@ -899,6 +1133,29 @@ func c04R4(c *Ctx) {
 		pres, posts, xfers := sitesOf(F, pre), sitesOf(F, post), isCallTo(doCopy)(F)
 		if inlined {
 			xfers = CallsTo(F, nPush)
+			if len(xfers) == 0 {
+				xfers = c04IIFESites(F, nPush)
+			}
+			if len(xfers) == 0 {
+				// the push happens in a closure handed to a transfer helper: that call is the transfer
+				pushers := map[*ssa.Function]bool{}
+				for _, cl := range c04Closures(F) {
+					if len(CallsTo(cl, nPush)) > 0 {
+						pushers[cl] = true
+					}
+				}
+				for _, call := range Calls(F, func(string) bool { return true }) {
+					if h := StaticCallee(call); h != nil && inModule(h) {
+						for _, a := range call.Common().Args {
+							for _, r := range Roots(a) {
+								if mc, isMC := r.(*ssa.MakeClosure); isMC && pushers[mc.Fn.(*ssa.Function)] {
+									xfers = append(xfers, call)
+								}
+							}
+						}
+					}
+				}
+			}
 		}
 		preNil, postNil := c04NilEdgesOfField(F, pre), c04NilEdgesOfField(F, post)
 		ok := true
@@ -969,13 +1226,19 @@ func c04R4(c *Ctx) {
 		F := doCopy
 		fn := FnName(F)
 		fs, ps := CallsTo(F, nFetch), CallsTo(F, nPush)
+		if len(ps) == 0 {
+			ps = c04IIFESites(F, nPush) // push inside an immediately invoked function literal
+		}
+		if len(fs) == 0 {
+			fs = c04IIFESites(F, nFetch)
+		}
 		if len(fs) == 0 || len(ps) == 0 {
 			// Fetch / Push sit in closures handed to a module helper: transfer(fetch, push, …).  The sequencing is the
 			// helper's: it calls its fetch parameter, then its push parameter, and closes the reader.
 			closureWith := func(name string) *ssa.Function {
 				var out *ssa.Function
 				n := 0
-				for _, a := range Anons(doCopy) {
+				for _, a := range c04Closures(doCopy) {
 					if k := len(CallsTo(a, name)); k == 1 {
 						out = a
 						n++
@@ -997,12 +1260,14 @@ func c04R4(c *Ctx) {
 				}
 				fi, pi := -1, -1
 				for i, a := range call.Common().Args {
-					if g, _ := c01FuncOfValue(a); g != nil {
-						if g == cf {
-							fi = i
-						}
-						if g == cp {
-							pi = i
+					for _, r := range Roots(a) {
+						if mc, isMC := r.(*ssa.MakeClosure); isMC {
+							if mc.Fn == ssa.Value(cf) {
+								fi = i
+							}
+							if mc.Fn == ssa.Value(cp) {
+								pi = i
+							}
 						}
 					}
 				}
@@ -1010,6 +1275,7 @@ func c04R4(c *Ctx) {
 					continue
 				}
 				F = h
+				xferViaHelper = append(xferViaHelper, call)
 				for _, hc := range Calls(h, func(string) bool { return true }) {
 					if hc.Common().IsInvoke() {
 						continue
@@ -1039,6 +1305,32 @@ func c04R4(c *Ctx) {
 				for _, call := range Calls(F, func(n string) bool { return n == "(io.Closer).Close" }) {
 					if al[call.Common().Value] {
 						closes = append(closes, call.(ssa.Instruction))
+					}
+				}
+				// a function literal of F, called in F, that closes the captured reader
+				for _, call := range Calls(F, func(string) bool { return true }) {
+					g := StaticCallee(call)
+					if g == nil || g.Parent() != F {
+						continue
+					}
+					for _, cc := range Calls(g, func(n string) bool { return n == "(io.Closer).Close" }) {
+						if srcs, okS := c01CarriedSources(c.P, cc.Common().Value); okS {
+							all := len(srcs) > 0
+							for _, sv := range srcs {
+								if !al[sv] {
+									all = false
+								}
+							}
+							okExit := true
+							for _, ret := range Returns(g) {
+								if !MustPass(ret, newCut().Instr(cc.(ssa.Instruction))) {
+									okExit = false
+								}
+							}
+							if all && okExit {
+								closes = append(closes, call.(ssa.Instruction))
+							}
+						}
 					}
 				}
 			}
@@ -1534,6 +1826,10 @@ func instrLabelOr(in ssa.Instruction) string {
 }
 
 var c04Mutants = []Mutant{
+	{Name: "concurrency-floor-instead-of-default", File: "extendedcopy.go",
+		Old: "\tif opts.Concurrency <= 0 {\n\t\topts.Concurrency = defaultConcurrency\n\t}\n\tlimiter := semaphore.NewWeighted", New: "\topts.Concurrency = max(opts.Concurrency, defaultConcurrency)\n\tlimiter := semaphore.NewWeighted", Expect: "C04.R3.limiter-per-call|~.ExtendedCopyGraph"},
+	{Name: "tracker-forgets-failed-node", File: "internal/status/tracker.go",
+		Old: "\tstatus, exists := t.status.LoadOrStore(key, make(chan struct{}))\n\treturn status.(chan struct{}), !exists\n}\n", New: "\tstatus, exists := t.status.LoadOrStore(key, make(chan struct{}))\n\treturn status.(chan struct{}), !exists\n}\n\n// Forget drops the record of target.\nfunc (t *Tracker) Forget(target ocispec.Descriptor) {\n\tt.status.Delete(descriptor.FromOCI(target))\n}\n", Expect: "C04.R2.single-owner|~/internal/status.Tracker|claim-map-append-only"},
 	{Name: "skipped-hook-told-about-root", File: "copy.go",
 		Old: "\t\t\tif onCopySkipped != nil {\n\t\t\t\treturn onCopySkipped(ctx, desc)\n\t\t\t}\n\t\t\treturn nil", New: "\t\t\tif onCopySkipped != nil {\n\t\t\t\treturn onCopySkipped(ctx, root)\n\t\t\t}\n\t\t\treturn nil", Expect: "C04.R5.wrapper-forwards-own-arguments|~.prepareCopy$OnCopySkipped"},
 	{Name: "postcopy-hook-gets-background-ctx", File: "copy.go",
